@@ -456,3 +456,77 @@ def c06_4(I, shape):
     I.check(calls == want, "expectation-sequence-matches-the-key-exchange",
             detail=lambda: dict(suite=hex(k), name=name, calls=calls,
                                 want=want))
+
+
+# ---------------------------------------------------------------------------
+# C06.5  an SSLv2-framed hello is taken only where a ClientHello is expected
+# ---------------------------------------------------------------------------
+
+def _shapes_c06_5(tier):
+    sites, unresolved = call_sites()
+    out = []
+    for (exp, sec), where in sorted(sites.items(), key=repr):
+        if ContentType.handshake not in exp:
+            continue
+        for client in (True, False):
+            out.append(dict(expected=list(exp),
+                            secondary=None if sec is None else list(sec),
+                            client=client, where=where[:3]))
+    return out
+
+
+@obligation("C06.5", _shapes_c06_5,
+            functions=CONN_FUNCS + ["tlslite.messages:RecordHeader2.parse",
+                                    "tlslite.messages:ClientHello.parse"],
+            assumes=CONN_ASSUMES + [
+                "one SSLv2-framed record (2-byte header) carrying a message "
+                "type byte (symbolic) and a well-formed SSLv2 ClientHello "
+                "body with symbolic version minor, one cipher spec and a "
+                "16-byte challenge, received on an unprotected connection "
+                "for every (expected, secondary) pair found at the "
+                "library's _getMsg call sites", ],
+            patches=lambda s: (conn_proxies(), []), max_paths=4000,
+            also=("C08",))
+def c06_5(I, shape):
+    """an SSLv2-framed record is turned into a message only if it is a
+    ClientHello and a ClientHello is what the caller waits for; everything
+    else is unexpected_message (or a decode error), never another message
+    class and never a raw exception"""
+    exp = tuple(shape["expected"])
+    sec = tuple(shape["secondary"]) if shape["secondary"] is not None \
+        else None
+    mtype = I.byte("msg_type")
+    minor = I.byte("version_minor")
+    chal = I.bytes(16, "challenge")
+    body = [mtype, 3, minor, 0, 3, 0, 0, 0, 16, 0, 0, 0x2f] + list(chal)
+    wire = [0x80 | (len(body) >> 8), len(body) & 0xff] + body
+    conn, sock = make_conn((3, 3), shape["client"], wire, session=False)
+    ctor = CTOR.get(sec[0]) if sec else None
+    try:
+        msg = _run(conn._getMsg(exp, sec, ctor))
+        exc = None
+    except (TLSAlert, TLSAbruptCloseError) as e:
+        msg, exc = None, e
+    except Exception as e:
+        I.fail("_getMsg raised undocumented %s" % type(e).__name__,
+               detail=repr(e))
+        return
+    want_hello = sec is not None and HandshakeType.client_hello in sec
+    if exc is None:
+        I.check(want_hello, "sslv2-hello-returned-only-where-expected",
+                detail=lambda: dict(expected=shape["secondary"]))
+        I.check(mtype == HandshakeType.client_hello,
+                "only-a-client-hello-is-taken-from-sslv2-framing")
+        I.check(isinstance(msg, _M.ClientHello),
+                "returned-message-class-is-client-hello")
+        return
+    if isinstance(exc, TLSLocalAlert):
+        sent = split_records(sock.out)
+        I.check(len(sent) >= 1 and sent[-1][0] == ContentType.alert,
+                "fatal-alert-on-the-wire-before-raising")
+        if not want_hello:
+            I.check(exc.description in (AlertDescription.unexpected_message,
+                                        AlertDescription.decode_error,
+                                        AlertDescription.illegal_parameter,
+                                        AlertDescription.protocol_version),
+                    "refused-with-a-protocol-alert")
